@@ -130,18 +130,30 @@ func C32(e *simkern.Env) {
 			switch kind {
 			case "ok":
 				if isRange {
-					p.Answer = func() (*http.Response, error) { return fetchw.Response(req, 206, cr(lo, hi), fetchw.Exact(part)), nil }
+					body := fetchw.Exact(part)
+					if tp.Bool(1, 4) {
+						body = fetchw.Chunked(part) // no Content-Length (streamed by the origin)
+						x.Outcome = "ok(chunked)"
+					}
+					p.Answer = func() (*http.Response, error) { return fetchw.Response(req, 206, cr(lo, hi), body), nil }
 				} else {
 					p.Answer = func() (*http.Response, error) { return fetchw.Response(req, 200, nil, fetchw.Exact(resource)), nil }
 				}
 			case "chunk-error":
 				p.Answer = func() (*http.Response, error) { return nil, errors.New("sim: connection reset") }
 			case "short-body":
-				k := tp.Draw(len(part)) // 0 .. len-1 bytes, announced honestly
-				p.Answer = func() (*http.Response, error) {
-					return fetchw.Response(req, 206, cr(lo, lo+int64(k)-1), fetchw.Exact(part[:k])), nil
+				k := tp.Draw(len(part)) // 0 .. len-1 bytes
+				hdr, body, how := cr(lo, lo+int64(k)-1), fetchw.Exact(part[:k]), "announced honestly"
+				switch tp.Draw(3) {
+				case 1:
+					// streamed without a Content-Length, Content-Range promising
+					// the whole chunk, body ending early but cleanly
+					hdr, body, how = cr(lo, hi), fetchw.Chunked(part[:k]), "chunked, full Content-Range"
+				case 2:
+					body, how = fetchw.Chunked(part[:k]), "chunked, honest Content-Range"
 				}
-				x.Outcome = fmt.Sprintf("short-body(%d of %d)", k, len(part))
+				p.Answer = func() (*http.Response, error) { return fetchw.Response(req, 206, hdr, body), nil }
+				x.Outcome = fmt.Sprintf("short-body(%d of %d, %s)", k, len(part), how)
 			case "whole-body-200":
 				p.Answer = func() (*http.Response, error) { return fetchw.Response(req, 200, nil, fetchw.Exact(resource)), nil }
 			case "wrong-status":
